@@ -61,10 +61,16 @@ func runSolver(s solverSpec, file string, ms int) solveOut {
 	_ = cmd.Run()
 	el := time.Since(t0).Milliseconds()
 	txt := out.String()
-	first := strings.TrimSpace(strings.SplitN(txt, "\n", 2)[0])
-	switch first {
-	case "sat", "unsat", "unknown":
-		return solveOut{first, txt, el}
+	for _, ln := range strings.Split(txt, "\n") {
+		first := strings.TrimSpace(ln)
+		switch first {
+		case "sat", "unsat", "unknown":
+			return solveOut{first, txt, el}
+		}
+		if first == "" || strings.HasPrefix(first, "WARNING") || strings.HasPrefix(first, "(warning") || strings.HasPrefix(first, ";") {
+			continue
+		}
+		break
 	}
 	if ctx.Err() != nil || strings.Contains(txt, "timeout") || strings.Contains(txt, "interrupted") {
 		return solveOut{"timeout", txt, el}
@@ -72,7 +78,7 @@ func runSolver(s solverSpec, file string, ms int) solveOut {
 	return solveOut{"error", txt, el}
 }
 
-// solveObligation runs the portfolio on one obligation.
+// solveObligation races the portfolio on one obligation; the first definitive answer wins.
 func solveObligation(o *Obligation, dir string, timeoutMs int, agree bool) {
 	file := filepath.Join(dir, sanitize(o.Name)+".smt2")
 	script := o.Script
@@ -84,29 +90,33 @@ func solveObligation(o *Obligation, dir string, timeoutMs int, agree bool) {
 		return
 	}
 	definitive := func(r string) bool { return r == "sat" || r == "unsat" }
-	// stage 1: z3-new
-	r1 := runSolver(solvers[0], file, timeoutMs)
-	o.Ms = r1.ms
-	if definitive(r1.result) && !agree {
-		o.Result, o.Solver = r1.result, solvers[0].name
-		if r1.result == "sat" {
-			o.Model = modelOf(r1.output)
+	t0 := time.Now()
+	ctx, cancel := context.WithCancel(context.Background())
+	defer cancel()
+	type res struct {
+		i  int
+		so solveOut
+	}
+	ch := make(chan res, len(solvers))
+	for i := range solvers {
+		go func(i int) { ch <- res{i, runSolverCtx(ctx, solvers[i], file, timeoutMs)} }(i)
+	}
+	outs := make([]solveOut, len(solvers))
+	got := 0
+	first := -1
+	for got < len(solvers) {
+		rr := <-ch
+		got++
+		outs[rr.i] = rr.so
+		if definitive(rr.so.result) && first < 0 {
+			first = rr.i
+			if !agree {
+				cancel()
+				break
+			}
 		}
-		return
 	}
-	// stage 2: the others, concurrently
-	var wg sync.WaitGroup
-	outs := make([]solveOut, 3)
-	outs[0] = r1
-	for i := 1; i < 3; i++ {
-		wg.Add(1)
-		go func(i int) {
-			defer wg.Done()
-			outs[i] = runSolver(solvers[i], file, timeoutMs)
-		}(i)
-	}
-	wg.Wait()
-	o.Ms += max64(outs[1].ms, outs[2].ms)
+	o.Ms = time.Since(t0).Milliseconds()
 	sawSat, sawUnsat := -1, -1
 	for i, so := range outs {
 		if so.result == "sat" && sawSat < 0 {
@@ -121,22 +131,48 @@ func solveObligation(o *Obligation, dir string, timeoutMs int, agree bool) {
 		o.Detail = "solvers disagree (sat vs unsat)"
 		return
 	}
-	if sawUnsat >= 0 {
-		o.Result, o.Solver = "unsat", solvers[sawUnsat].name
-		return
-	}
-	if sawSat >= 0 {
-		o.Result, o.Solver = "sat", solvers[sawSat].name
-		o.Model = modelOf(outs[sawSat].output)
+	if first >= 0 {
+		o.Result, o.Solver = outs[first].result, solvers[first].name
+		if outs[first].result == "sat" {
+			o.Model = modelOf(outs[first].output)
+		}
 		return
 	}
 	o.Result = outs[0].result
 	o.Solver = "none"
 	var ds []string
 	for i, so := range outs {
-		ds = append(ds, solvers[i].name+": "+so.result+" "+firstLines(so.output, 3))
+		ds = append(ds, solvers[i].name+": "+so.result+" "+firstLines(so.output, 2))
 	}
 	o.Detail = strings.Join(ds, " | ")
+}
+
+func runSolverCtx(parent context.Context, s solverSpec, file string, ms int) solveOut {
+	ctx, cancel := context.WithTimeout(parent, time.Duration(ms+2000)*time.Millisecond)
+	defer cancel()
+	t0 := time.Now()
+	cmd := exec.CommandContext(ctx, s.bin, s.args(file, ms)...)
+	var out bytes.Buffer
+	cmd.Stdout = &out
+	cmd.Stderr = &out
+	_ = cmd.Run()
+	el := time.Since(t0).Milliseconds()
+	txt := out.String()
+	for _, ln := range strings.Split(txt, "\n") {
+		first := strings.TrimSpace(ln)
+		switch first {
+		case "sat", "unsat", "unknown":
+			return solveOut{first, txt, el}
+		}
+		if first == "" || strings.HasPrefix(first, "WARNING") || strings.HasPrefix(first, "(warning") || strings.HasPrefix(first, ";") {
+			continue
+		}
+		break
+	}
+	if ctx.Err() != nil || strings.Contains(txt, "timeout") || strings.Contains(txt, "interrupted") {
+		return solveOut{"timeout", txt, el}
+	}
+	return solveOut{"error", txt, el}
 }
 
 func max64(a, b int64) int64 {
@@ -155,11 +191,11 @@ func firstLines(s string, n int) string {
 }
 
 func modelOf(out string) string {
-	i := strings.Index(out, "\n")
+	i := strings.Index(out, "sat\n")
 	if i < 0 {
 		return ""
 	}
-	return strings.TrimSpace(out[i+1:])
+	return strings.TrimSpace(out[i+4:])
 }
 
 func sanitize(s string) string {
